@@ -116,7 +116,14 @@ def resolve(ctx, f, c):
         if not (isinstance(r, dict) and r.get('k') == 'atom' and r.get('root') == 'self' and not r.get('path')):
             # a method of a workspace type called on a value of that type (e.g. a new accessor on an IR struct)
             t = str((r or {}).get('ty') or '').replace('&', '').replace('mut ', '').strip().split('<')[0] if isinstance(r, dict) else ''
-            if not t or t in ('String', 'str', 'Vec', 'Option', 'bool'):
+            if (not t or t == 'Self') and isinstance(r, dict) and r.get('k') == 'call' and r.get('recv') is None and '::' in str(r.get('f', '')):
+                # `Type::constructor(..).method(..)`: the receiver is a value of `Type` (constructors return Self)
+                q = str(r['f']).replace(' ', '').split('::')[-2]
+                if q == 'Self':
+                    q = (f.get('self_ty') or '').split('<')[0]
+                if any((g.get('self_ty') or '').split('<')[0] == q for g in ctx.astq['functions']):
+                    t = q
+            if not t or t in ('String', 'str', 'Vec', 'Option', 'bool', 'Self'):
                 return None
             ms = [g for g in ctx.astq['functions'] if g['name'].split('::')[-1] == base and (g.get('self_ty') or '').split('<')[0] == t
                   and any(p['name'] == 'self' for p in g['params']) and len(g['params']) - 1 == len(c.get('args', [])) and not g.get('trait')]
@@ -266,9 +273,12 @@ def view(ctx, f, depth=3, stop=(), _stack=(), force=()):
                 return [rw(x, d) for x in v]
             if not isinstance(v, dict) or d > 60:
                 return v
+            # resolve the callee on the node as written (its receiver still carries its type; once the receiver itself has been
+            # replaced by an expanded result the type is gone), then rewrite the children
+            g0 = can(v) if v.get('k') == 'call' else None
             v2 = {k: (rw(x, d + 1) if isinstance(x, (dict, list)) else x) for k, x in v.items()}
             if v2.get('k') == 'call':
-                g = can(v2)
+                g = g0 if g0 is not None else can(v2)
                 if g is not None:
                     G = sub_view(g)
                     res = _result(G)
